@@ -923,6 +923,16 @@ func cmdReplay(args []string) int {
 	for _, o := range j.obs {
 		fmt.Println("  obs:", o)
 	}
+	if os.Getenv("GOSE_REPLAY_ENGINE") != "" {
+		// also run the engine with the inputs pinned (debugging aid for translation mismatches)
+		if ld, err := loadProgram(spec, ov); err == nil {
+			mm, out := pinnedRun(ld, ld.pkgs[unit.Pkg], rec.Harness, rec.Model, rec.Params, globalOpts{workers: 1})
+			fmt.Printf("engine (pinned) outcome: %s %s\n", out.outcome, firstLines(mm, 30))
+			for _, o := range out.obs {
+				fmt.Println("  engine obs:", o)
+			}
+		}
+	}
 	if j.outcome != "ok" && j.outcome != "assume" {
 		return 1
 	}
